@@ -7,6 +7,10 @@ ENGINES = [
      'kind_free_text': 'decision-list symbolic executor running the real hpl.ast constructors/queries on str proxies whose identity is a z3 Int (symbolic alias/variable/channel names)'},
     {'name': 'FP', 'path': 'vf/fp.py', 'serves_properties': ['C06', 'C01'],
      'kind_free_text': 'Python-ast -> z3 Float64 translation of HplPattern.__str__ and PropertyTransformer.time_amount, regenerated from the current source'},
+    {'name': 'LX', 'path': 'vf/lx.py', 'serves_properties': ['C01', 'C07'],
+     'kind_free_text': 'z3 string/regex obligations generated from the live Lark terminals and per-state contextual scanners'},
+    {'name': 'GX', 'path': 'vf/gx.py, vf/refgrammar.py', 'serves_properties': ['C01', 'C07', 'C18'],
+     'kind_free_text': 'CYK-style derivability of a symbolic token string in z3 for the live Lark.rules vs a frozen reference grammar, with explicit operator/property brackets for structure'},
     {'name': 'TR', 'path': 'vf/tr.py', 'serves_properties': ['C12'],
      'kind_free_text': 'z3 formula of the reference trace semantics generated from real HplProperty objects over a symbolic timed trace; Python evaluator for replay'},
     {'name': 'SX', 'path': 'vf/sx.py, vf/harness/', 'serves_properties': ['C08', 'C11', 'C14'],
@@ -145,6 +149,15 @@ CHECKS['C06'] = {
              'round trip of the time bound is decided for ALL finite doubles >= 0 (complete for that obligation). print -> parse -> print with equality, hash, fixed point and printer injectivity over every accepted text of the families.'),
     'note': 'Trusted: z3 floating-point theory; CPython repr/float round trip; the 200-line Python-ast -> z3 translator (fails loudly outside its fragment). The print/parse part is concrete execution of real parser and printers.',
     'technique': 'z3 Float64 encoding generated from the real printing/parsing source + print/parse/print on enumerated accepted texts',
+}
+
+CHECKS['C01'] = {
+    'engine': 'LX+GX+SP+FP', 'category': 'other', 'design_ref': 'DESIGN.md 1 (LX, GX, SP, FP), 4 (C01)',
+    'text': ('Compositional and bounded: LX decides in z3 regex theory, over the live lexer tables of all four entry points, that no keyword terminal cuts a longer word (all strings) and that terminal languages equal '
+             'the documented sets; GX decides with a CYK encoding in z3 that the live rule set and a frozen reference grammar (precedence table) derive the same token strings and assign the same operator constituents, '
+             'for all token strings up to the bound; SP runs the real callbacks on a symbolic operator token; FP covers ms/s. A differential run through the real parser (minimal/redundant parentheses, random layout) ties the layers together.'),
+    'note': 'Trusted: z3 (sequence/regex, arithmetic); Lark LALR table construction and runtime implement Lark.rules (cross-checked on real token streams); the reference grammar vf/refgrammar.py.',
+    'technique': 'z3 regex queries over live lexer tables + CYK-in-z3 grammar equivalence (language and bracketing) + symbolic callback tokens',
 }
 
 NOT_APPLICABLE = {}
